@@ -46,3 +46,8 @@ claim("C11", "go/cfg path search and static types on the reconstructed server ru
       "Structural only — the for-all-bytes part of C11 (what protojson/encoding/json/protovalidate do with arbitrary bytes, hangs, memory) is a fuzzing question outside this family and is NOT decided. Decided: no path of the emitted handler dispatches after an error response was written; the body binders test every error before any success return; every middleware failure is a *ValidationError (400); in every emitted decoder variant decode errors are propagated (success-arm-only sites only with a reasoned exception); emitted Go has no panic, bare type assertion, unguarded constant index or use of a result before its error test.",
       "protojson is strict about token kinds per field; its bytes decoder accepts all base64 alphabets.",
       "DESIGN.md 5/C11")
+
+claim("C01", "content-type dispatch tables of client (parsed variants) and server (typed runtime) compared per content type; verb-set extraction from condition syntax trees; escaping and conversion-table rules",
+      "Structural: for every content type of the property (and the default arm) the server arm selected by that string is the inverse codec of the client's, for requests and responses; every RPC method sends Content-Type from the per-call variable before executing; the body/query verb partitions of server, client and generation-time validation coincide; path values are PathEscape'd and query values Encode'd; every URL-bindable kind has a server conversion arm whose parser, bit size and constructor are those of the kind. Equality of concrete values (float text, zero-value elision, UTF-8) and route equality (C03) are not decided.",
+      "protojson/proto codecs are mutually inverse; fmt.Sprint/strconv round-trip at equal bit size.",
+      "DESIGN.md 5/C01")
